@@ -190,8 +190,25 @@ pub fn check_world(r: &mut Report, d: &mut Driver, rng: &mut Rng, w: &gen::GWorl
                 r.fail("oracle", &sig, format!("store vetted successfully, after the `{mname}` update the locked view gives `{after}`"), &mcase);
             }
         }
-        if regen && prop == "C10" && after.starts_with("failvet") {
-            r.fail("oracle", "C10/regenerate-leaves-failures", format!("after regenerating exemptions the store gives `{after}`"), &mcase);
+        if regen && std::env::var("VERIF_ONLY").is_ok() {
+            eprintln!("DEBUG live publishers: {:?}", store.live_imports.as_ref().map(|l| &l.publisher));
+            eprintln!("DEBUG live unpublished: {:?}", store.live_imports.as_ref().map(|l| &l.unpublished));
+            eprintln!("DEBUG live audits: {:?}", store.live_imports.as_ref().map(|l| &l.audits));
+            let rep = resolver::resolve(md, None, &after_store);
+            for (i, rr) in rep.results.iter().enumerate() {
+                if let Some(rr) = rr {
+                    eprintln!("DEBUG after pkg {i} {}:{} results {:?}", rep.graph.nodes[i].name, rep.graph.nodes[i].version, rr.search_results.iter().map(|r| r.is_ok()).collect::<Vec<_>>());
+                }
+            }
+            let cm = crate::criteria::CriteriaMapper::new(&store.audits.criteria);
+            let reqs = resolver::verif_hooks::requirements(&rep.graph, &store.config.policy, &cm);
+            eprintln!("DEBUG reqs {:?}", reqs);
+        }
+        // (the property excuses stores with a violation conflict)
+        if regen && prop == "C10" && after.starts_with("failvet") && before != "violation" {
+            let dump = |s: &Store| s.mock_commit().into_iter().map(|(k, v)| format!("--- {k}\n{v}")).collect::<Vec<_>>().join("\n");
+            let pk: Vec<String> = w.graph.pkgs.iter().map(|p| format!("{}:{} src{} member={} deps={:?}", p.name, p.version, p.source, p.member, p.deps)).collect();
+            r.fail("oracle", "C10/regenerate-leaves-failures", format!("after regenerating exemptions the store gives `{after}`\npackages: {pk:?}\nBEFORE (live view present: {})\n{}\nAFTER\n{}", store.live_imports.is_some(), dump(&store), dump(&after_store)), &mcase);
         }
         if after.starts_with("panic") {
             r.fail("oracle", &format!("{prop}/panic-after-update"), after.clone(), &mcase);
